@@ -44,10 +44,10 @@ def job(seed):
     for t in spec['tables']:
         if rng.random() < 0.5:
             t['props'] = [[k, rng.choice(['v', 'two words', "it's", 'x:y', 'a,b', '[b]', '', '0', 'line1\n  line2', '\n    indented\n    block\n', '  lead'])]
-                          for k in rng.sample(['owner', 'team', 'k', 'label', 'zz'], rng.randint(1, 3))]
+                          for k in rng.sample(['owner', 'team', 'k', 'label', 'zz', 'Owner', 'LABEL', 'K'], rng.randint(1, 4))]
         for c in t['columns']:
             if rng.random() < 0.35:
-                c['props'] = [[k, rng.choice(['v', 'two words', "it's", 'x]y', 'a,b', '', '0', 'l1\n  l2', '  lead'])] for k in rng.sample(['label', 'k', 'zz', 'fmt', 'owner'], rng.randint(1, 2))]
+                c['props'] = [[k, rng.choice(['v', 'two words', "it's", 'x]y', 'a,b', '', '0', 'l1\n  l2', '  lead'])] for k in rng.sample(['label', 'k', 'zz', 'fmt', 'owner', 'Label', 'FMT', 'K'], rng.randint(1, 3))]
     if rng.random() < 0.3:
         spec = strip_props(spec)
     from harness.props.c02 import make_expressible
